@@ -973,6 +973,17 @@ example : ((Pandora.Model.C02.CbW.wrun Pandora.Proofs.C02Cb.absInner
     [.got (.tok 5 true), .ret (.tok 5 true), .got (.tok 5 false), .cbBegin, .got (.tok 5 false), .blocked, .blocked,
      .cbEnd, .ret (.tok 5 false), .ret (.tok 5 false)] := by decide
 
+/-- **The config wrappers are pass-throughs** (round 6): `NewCompositeConf(conf)` = `NewComposite(conf.Nested...)`,
+`NewInstanceStepConf(conf)` = `NewInstanceStep(conf.From, conf.To, conf.Step, conf.StepDuration)`, `NewUnlimitedConf(conf)` =
+`NewUnlimited(conf.Duration)` — every field handed over unchanged and in order (re-extracted on every check, each argument
+traced through local aliases; once/const/line/step: C01's `New…Conf` definitions).  A wrapper that drops token-less parts,
+truncates a duration or swaps two fields changes this table. -/
+theorem C02_conf_wrappers_forward : Pandora.Gen.C02Src.confForwards =
+    [("NewCompositeConf", "NewComposite(Nested...)"),
+     ("NewInstanceStepConf", "NewInstanceStep(From, To, Step, StepDuration)"),
+     ("NewUnlimitedConf", "NewUnlimited(Duration)")] := Pandora.Bridge.C02Src.conf_forwards
+
+
 /-! ## G. Composition with C01: accepted configurations → leaves → composites → concurrent callers (round 6) -/
 
 section compose
